@@ -59,6 +59,8 @@ class Module:
             warnings.simplefilter('ignore')
             self.tree = ast.parse(src, filename=path)
         from .normalize import normalise
+        from .localnames import restore_module
+        self.tree = restore_module(self.tree, relpath[len(PKG) + 1:-3])
         self.tree = normalise(self.tree)
         self.digest = hashlib.sha256(src.encode()).hexdigest()[:16]
         self.bindings = {}          # own top-level bindings: name -> Binding (last wins)
